@@ -16,6 +16,8 @@ func ConvertToValue(structure json.Structure) value.Primary {
 	var p value.Primary
 
 	switch structure.(type) {
+	case nil:
+		p = value.NewNull()
 	case json.Number:
 		p = value.NewFloat(structure.(json.Number).Raw())
 	case json.Integer:
